@@ -151,6 +151,10 @@ def seg_pushjob_new(chk):
         I.assume(z3.Not(z3.Select(S["j_done"], j)))
         nowhere(I, S, j)
         I.assume(z3.Select(S["TQ"], j) == 0)
+        # job.__init__ gave it a fresh, unset finish event
+        ev = z3.Select(S["j_event"], j)
+        I.assume(z3.And(ev >= 1, ev < S["alloc"], z3.Not(z3.Select(S["is_job"], ev)), z3.Not(z3.Select(S["e_set"], ev)),
+                        z3.Select(S["ev_owner"], ev) == j))
         # push() passes an id that is None, free, or whose current holder was killed (done)
         jid = z3.Select(S["j_jobid"], j)
         old = z3.Select(S["id_val"], jid)
@@ -194,6 +198,8 @@ def seg_qpull(chk):
     fn = ex.function(QSERVE, "QPlugin.rpc_qpull")
     sh = ex.function(QSERVE, "QPlugin.shutdown")
     ex.inline.add(sh.ident)
+    # _preenall by contract (its body: C17 jobs.workq._preenjobq + assumed iteration)
+    ex.contracts[JOBS + ":workq._preenall"] = qm.preenall_contract
 
     def harness(I):
         S, w = start(I, ex)
